@@ -228,6 +228,11 @@ def run(ctx):
     from .. import ffi
     ffi.rule_sig(ctx, "C03.FFI", only={"mesh_chstt"})
     ctx.floor("C03.FFI", 2)
+    # shared clauses: the flat index of a (species, cell) entry (C13.INDEX) and the cell index of a position (C15.RADIX / ENT)
+    from ..core import borrow
+    from . import c13, c15
+    borrow(ctx, "C03", c13.rule_index, ctx.py)
+    borrow(ctx, "C03", c15.rule_radix_py, ctx.py)
     from .. import lints
     lints.run(ctx, "C03", ctx.py, ["kinetics", "rdsystem"], truth_floor=24)
     ctx.assume("equality with the recorded initial value is decided only as 'never written after Init' "
